@@ -427,3 +427,44 @@ PROPS["C14"] = {
     "assumptions": ["exact arithmetic, exact cubic solver and simple roots (nowhere tangent) for the parity theorems", "graph balanced (in-degree = out-degree at every vertex): checked on every real graph, proved for closed vertex cycles",
                     "NaN-free inputs (partial_cmp never fails in the model)"],
 }
+
+PROPS["C03"] = {
+    "title": "Colliding path graphs yields a planar, balanced, shape-preserving graph",
+    "gen_modules": ["Consts", "Basis", "Section"],
+    "props_modules": ["C03", "C03Split"],
+    "corr_n": (600, 6000),
+    "search_n": (4000, 60000),
+    "extended_factor": 2,
+    "technique": "Lean 4 theorems (invariant preserved by every structural operation of the collision stage, for all graphs and all arguments; proven decidable checker; split algebra over the translated "
+                 "subdivision) about a literal hand model of GraphPath + stage-by-stage exact replay of the real detect_collisions through hook H5 (verif_collide_trace) + geometric search",
+    "level_text": "Partial. PROVED for every graph and every value of the geometric decisions (which sections from_path skips, which collisions find_collisions returns - any number per edge, "
+                  "coinciding, at t=0, on the edge's own end points -, which nearby points are merged - chains, repeats, pairs joined by an edge -, which self-loops are judged very short): the invariant "
+                  "Wf (every edge ends at an existing point; every edge is the following edge of exactly one edge, which ends at its start point - the library's check_following_edge_consistency in "
+                  "counting form; connected_from lists existing points, none twice, and every point with an edge to this one) holds after from_path and is preserved by merge, by the edge-dividing loops "
+                  "(create_collision_points, organize, sort, chain of following_edge_idx), recalculate_reverse_connections, combine_overlapping_points (index remapping with following-index offsets) and "
+                  "remove_edge / remove_all_very_short_edges (self-loops), hence by detect_collisions / collide / self_collide and any sequence of them; remove_all_very_short_edges never meets a missing "
+                  "preceding edge (so its while loop advances). Wf implies BALANCE (in-degree = out-degree at every point) and that reverse_edges_for_point lists every incoming edge exactly once. "
+                  "Labels: dividing an edge at k points adds k edges with its label and relabels nothing; the dividing stage introduces no label; merging points keeps every label count; remove_edge "
+                  "removes one edge of the removed edge's label. wfCheck / connExactCheck are proved sound and complete and are evaluated on the REAL graphs after every stage. Hit selection: of the two "
+                  "representatives of a crossing at an edge joint the one at t=0 of the following edge is kept and re-uses the vertex; the 'move to the following edge' code is dead. "
+                  "Split algebra (C03Split, over the subdivision regenerated from BezierCurve::subdivide): dividing at t1..tk with the code's re-parameterisation yields exactly the sections "
+                  "[0,t1],[t1,t2],..,[tk,1], so in exact arithmetic dividing preserves the traced point set. "
+                  "NOT proved (numerical, searched on the real code): every crossing is found (planarity of the result), the 0.05 shape bound after snapping to vertices and merging points.",
+    "level_note": "The structural model (Model/Graph.lean) is hand-written - Vec/SmallVec mutation in place is outside the translator's subset; it is tied to the code by replaying every stage of the real "
+                  "detect_collisions exactly (indices, following_edge_idx, connected_from, labels, and the control points of divided edges bit for bit at Float). Findings recorded as theorems: "
+                  "remove_edge leaves a stale self entry in connected_from (removeEdge_leaves_stale_entry; the code keeps connected_from as a duplicate-free superset, not exact), remove_edge is only "
+                  "correct for self-loops and needs complete connected_from (two witnesses), crossings at a vertex of both paths are dropped by find_collisions and rely on combine_overlapping_points "
+                  "(vertex_vertex_hits_all_dropped). Without hook H5 in the source the correspondence falls back to the public queries (from_path, merge, final graph). " + COMMON_NOTE,
+    "rule": "corr: the tangent/shared-edge corpus in 4 variants, then per case one of: random pair over the C01 relation classes (independent, grid aligned, concentric, identical, tangent, centred on vertex, "
+            "sets with holes), a self-intersecting/degenerate path (bow tie, looped cubic, tear drop, repeated vertex, pentagram, 1-2 points) against a shape, a pair collided and the result collided "
+            "with a third shape, a set of 2-4 shapes self-collided. Every from_path (decisions recomputed through the public predicates), every merge and every stage of detect_collisions "
+            "(start, split, recalc, combined, end + the public view of the result) is compared exactly with the model replayed from the recorded collisions / merged pairs / removed edges; "
+            "the proven checkers run on every real stage. Non-trivial: at least one collision or merged pair (from_path: at least 2 kept sections); distinct by transcript line. "
+            "search: the same classes on the real code: indices valid, balance, reverse edges once, each input point within 0.05 of an edge of its label and vice versa, no transversal crossing of two "
+            "edges away from their ends (exact crossings by hull subdivision + Newton).",
+    "trusted_base": ["hand-written model Model/Graph.lean of the GraphPath structure and Model/GraphSplit.lean of the dividing loop's geometry (tied by exact stage-by-stage replay, not by translation)",
+                     "hook H5 verif_collide_trace / GraphPath::verif_dump (cfg-gated, add-only): read access to the private structure and to the decisions of detect_collisions"],
+    "assumptions": ["t values are not NaN (sort_by on the collisions of an edge is modelled as a stable sort by a total preorder)",
+                    "collisions name existing points (by construction in find_collisions)",
+                    "theorems about curves are over exact arithmetic"],
+}
